@@ -817,6 +817,12 @@ def call(f, *args, **kw):
             if not sym or name in SAFE_DICT_METHODS:
                 return f(*args, **kw)
             raise Unsupported("dict.%s with symbolic argument" % name)
+        if isinstance(recv, (set, frozenset)) and sym:
+            if name == "issuperset" and len(args) == 1 and isinstance(args[0], (str, SStr)):
+                return truth(all_of([contains(recv, c) for c in SStr.of(args[0])]))
+            if name == "__contains__":
+                return truth(contains(recv, args[0]))
+            raise Unsupported("%s.%s with symbolic argument" % (type(recv).__name__, name))
         tm = EXTRA_MODELS.get((type(recv), name))
         if tm is not None:
             return tm(recv, *args, **kw)
